@@ -77,6 +77,10 @@ def run(tier, rep, files=(), parts=("chars", "pieces", "files")):
         r = _tlc("Lexer_pieces.cfg", "pieces", {"MaxPieces": 3}, workers=8 if quick else NCPU)
         stats["states"] += r.distinct
         _compare(r, rep, "pieces", stats)
+    if "pieces" in parts:
+        r = _tlc("Lexer_ml.cfg", "ml", {}, workers=8 if quick else NCPU)
+        stats["states"] += r.distinct
+        _compare(r, rep, "multiline", stats)
     if files and "files" in parts:
         d = workdir("lexer-files")
         path = os.path.join(d, "texts.ndjson")
